@@ -15,6 +15,18 @@ def claim(pid, technique, text, note, ref):
 
 NOT_APPLICABLE = {}
 
+
+def amend(pid, technique_add=None, text_add=None, note=None):
+    """later rounds: extend a claim without rewriting it"""
+    c = CLAIMS[pid]
+    if technique_add:
+        c["technique"] += "; " + technique_add
+    if text_add:
+        c["text"] += " " + text_add
+    if note is not None:
+        c["note"] = note
+
+
 exec(open(os.path.join(VERIF, "tools", "claims.py")).read())
 
 props = [json.loads(l)["id"] for l in open(os.path.join(VERIF, "properties.jsonl"))]
